@@ -11,7 +11,7 @@ from concurrent.futures import ThreadPoolExecutor
 
 VERIF = os.path.dirname(os.path.dirname(os.path.abspath(__file__)))
 REPO = os.environ.get("KONST_REPO", "/repo")
-WORK = os.path.join(VERIF, "work")
+WORK = os.environ.get("VERIF_WORK") or os.path.join(VERIF, "work")
 SPEC = os.path.join(VERIF, "spec")
 HARNESS = os.path.join(VERIF, "harness")
 TARGET = os.path.join(WORK, "target")
@@ -132,7 +132,18 @@ def sany_all():
 def build_harness():
     """(Re)build the conformance harness against /repo's current working tree (path dependency)."""
     ensure_dirs()
-    lock_src = os.path.join(REPO, "Cargo.lock")
+    global HARNESS
+    if REPO != "/repo":
+        # scratch mode (seeded-change trials): a copy of the harness whose path dependency points at KONST_REPO
+        hc = os.path.join(WORK, "harness_copy")
+        shutil.rmtree(hc, ignore_errors=True)
+        shutil.copytree(os.path.join(VERIF, "harness"), hc)
+        ct = open(os.path.join(hc, "Cargo.toml")).read().replace('path = "/repo/konst"', 'path = "%s/konst"' % REPO)
+        open(os.path.join(hc, "Cargo.toml"), "w").write(ct)
+        cfgp = os.path.join(hc, ".cargo", "config.toml")
+        open(cfgp, "w").write(open(cfgp).read().replace('target-dir = "../work/target"', 'target-dir = "%s"' % TARGET))
+        HARNESS = hc
+    lock_src = os.path.join("/repo", "Cargo.lock")
     lock_dst = os.path.join(HARNESS, "Cargo.lock")
     if not os.path.exists(lock_dst) and os.path.exists(lock_src):
         shutil.copy(lock_src, lock_dst)
@@ -373,7 +384,9 @@ class Run:
               "coverage": cov, "assumptions": self.assumptions, "wall_s": wall,
               "violations": len(self.violations)}
         if not self.quiet:
-            with open(os.path.join(VERIF, "evidence", self.pid + ".json"), "w") as f:
+            evdir = os.path.join(VERIF, "evidence") if REPO == "/repo" else os.path.join(WORK, "evidence")
+            os.makedirs(evdir, exist_ok=True)
+            with open(os.path.join(evdir, self.pid + ".json"), "w") as f:
                 json.dump(ev, f, indent=1)
         for p in vio_paths:
             log("VIOLATION property=%s replay=%s" % (self.pid, p))
